@@ -46,7 +46,7 @@ CHECKS = {
         "legs": legs_with_mock("^TestC01$", 12, 16, fuzz=True),
         "rule": "rapid: object (cert 70% / CRL 20% / OCSP 10%: corpus, 0-4 DER-tree edits, openers re-date/re-scope, built CRLs/OCSP) x registry "
                 "(nil, global, Filter(generated), Filter of Filter) x configuration (none, empty, example, unrelated, well-typed, ill-typed); plus the whole "
-                "corpus under the default registry (enumerated); " + HOME_SWEEP + " (K=2 quick / 3 thorough) through Lint*Ex. Oracle: result-set invariants. Non-trivial = parseable, >=1 result above pass, and bytes edited "
+                "corpus under the default registry (enumerated); " + HOME_SWEEP + " (K=2 quick / 3 thorough; inner-node edits include an extra trailing element of each class) through Lint*Ex. Oracle: result-set invariants. Non-trivial = parseable, >=1 result above pass, and bytes edited "
                 "or registry filtered or configuration given; distinct by hash(DER, filters, config).",
         "assumptions": COMMON_ASSUME + ["'hang' = a single Lint*Ex call exceeding 45 s (about 30 000 times its normal duration)",
                                          "mock leg: 90 instrumented lints (15 sources x 3 kinds x plain/configurable) registered through the public Register* API in a test binary of their own; "
@@ -55,7 +55,7 @@ CHECKS = {
     "C02": {
         "legs": legs_fuzz("^TestC02$", 14, 16),
         "rule": "corpus + single-leaf-edit sweep (corpus object x leaf x ~190 deterministic edits; strided 1/97 sample in quick, complete in thorough) + rapid multi-edit / "
-                "crossover / opener / built objects, empty configuration, full registry; " + HOME_SWEEP + " (K=2 quick / 4 thorough) with the reference lifecycle next to it; enumerated revocation lists over the calendar (leap days, month / year ends x 10 days / 11-13 months / 1 year +- 1 s / 1 day) x the CRL lint's option; rapid objects under well-typed configurations of the configurable lints. Oracle: no recovered-panic result, no escaping panic, reference lifecycle "
+                "crossover / opener / built objects, empty configuration, full registry; " + HOME_SWEEP + " (K=2 quick / 4 thorough) with the reference lifecycle next to it; enumerated revocation lists over the calendar (leap days, month / year ends x 10 days / 11-13 months / 1 year +- 1 s / 1 day) x the CRL lint's option; rapid objects under well-typed configurations of the configurable lints; a soak history (one process lints > 1500 distinct generated names, then an early object again). Oracle: no recovered-panic result, no escaping panic, reference lifecycle "
                 "body does not panic, fatal only as the body's own verdict. Non-trivial = parseable, differs from every corpus file, >=1 lint body executed; distinct by hash(DER).",
         "assumptions": COMMON_ASSUME,
     },
@@ -63,7 +63,7 @@ CHECKS = {
         "legs": legs_with_mock("^TestC03$", 12, 16),
         "rule": "every certificate lint is also reached through the deprecated Registry.ByName / BySource copies (same window, same verdict), and the mock leg keeps one long-lived lint.Lint value per mock whose dates are rewritten in place and on by-value copies. "
                 "enumerated boundary sweep: every lint with a dated boundary x K home objects (2 quick / 12 thorough) x {eff,ineff} x {-1s,0,+1s} x time forms "
-                "(UTCTime Z, GeneralizedTime Z; +0100 / -0500 offsets in thorough) with the parsed dates additionally converted to zones +14/-12/+0530; rapid: generated "
+                "(UTCTime Z, GeneralizedTime Z; +0100 / -0500 offsets in thorough; where the object kind keeps fractional seconds also -500 ms, -1 ns, +500 ms) with the parsed dates additionally converted to zones +14/-12/+0530; rapid: generated "
                 "objects re-dated to registry dates +-{0,1s,1d} or uniform. Every lint of the kind is judged on every object against the integer window model. "
                 "Non-trivial = (lint, boundary, side, object) with the lint applicable and the object dated within 1 s of that lint's boundary.",
         "assumptions": COMMON_ASSUME + ["boundaries outside 1951..2048 (zlint's year-0 'ZeroDate') cannot be approached from both sides in UTCTime and are skipped in the sweep"],
@@ -71,15 +71,15 @@ CHECKS = {
     "C04": {
         "legs": legs_with_mock("^TestC04$", 12, 16),
         "rule": "mock leg: configurable mocks are configured with a scalar and two slices, report what they were handed, mutate it in place, and are run twice per registry (every instance is owed a freshly decoded configuration); "
-                "framework results are compared with the deprecated Registry.ByName(...).Execute path too. enumerated single-feature scope matrix ({no EKU, each of 8 EKUs} x {no policy, each of 18 scope OIDs, anyPolicy, unrelated} x 4 e-mail-SAN variants on the 3 "
-                "corpus certificates that are home to most TLS/SMIME/CS lints) + corpus + rapid objects with openers, filters and configurations. Oracle: framework result == "
+                "framework results are compared with the deprecated Registry.ByName(...).Execute path too. enumerated single-feature scope matrix ({no EKU, each of 8 EKUs} x {no policy, each of 18 scope OIDs, anyPolicy, unrelated} x 9 e-mail-SAN variants (absent, rfc822Name, SmtpUTF8Mailbox well-formed / Latin-1 / OCTET STRING / trailing element / empty wrapper / empty string, empty rfc822Name) on the 3 "
+                "corpus certificates that are home to most TLS/SMIME/CS lints; the same scope variants are objects of the mock leg, where run-time lints of every source meet them) + a soak history + corpus + rapid objects with openers, filters and configurations. Oracle: framework result == "
                 "reference lifecycle (scope model, fresh instance, MaybeConfigure, CheckApplies, integer window, Execute) for every lint, status and details. "
                 "Non-trivial = object on which >=1 lint's lifecycle stage differs from the untransformed base; distinct by hash(DER).",
         "assumptions": COMMON_ASSUME + ["mock-lint call logs (constructor/Configure/CheckApplies/Execute order) are covered by the mockreg leg"],
     },
     "C06": {
         "legs": legs_simple("props", "^TestC06$", 14, 16),
-        "rule": "every lint run contributes a (lint, status) tally: corpus, boundary objects of every dated lint, " + HOME_SWEEP + " (K=2), rapid edits directed at the home objects of each lint, generated objects with openers, the calendar CRL enumeration x the CRL lint's option, rapid objects under well-typed configurations. "
+        "rule": "every lint run contributes a (lint, status) tally: corpus, boundary objects of every dated lint, " + HOME_SWEEP + " (K=2), rapid edits directed at the home objects of each lint, generated objects with openers, the calendar CRL enumeration x the CRL lint's option, rapid objects under well-typed configurations; S/MIME subjects whose mailboxes reappear in the SAN verbatim, in their other IDNA spelling, as SmtpUTF8Mailbox (well-formed or not) or not at all. "
                 "Oracle: status in {pass, NA, NE, fatal} or the one severity the name prefix allows; every registered name has exactly one prefix (enumerated). "
                 "Non-trivial = distinct (lint, status above pass) pair observed.",
         "assumptions": COMMON_ASSUME + ["only executed return paths are observed"],
@@ -89,7 +89,7 @@ CHECKS = {
         "exhaustive": True,
         "rule": "enumerated: every Register* call found by a go/parser census of v3/lints/*/*.go (non-test) and every lint in the "
                 "default-build registry, each checked once (census==registry, lookups agree, metadata well-formed); generated: "
-                "after each of six run-time registrations (every kind, sources shared across kinds) the registry and every one- and two-lint view without certificate lints must agree with themselves (listing, per-kind sources, lookups); rapid near-miss / random names and sources looked up in the global and in generated filtered registries. "
+                "after each of six run-time registrations (every kind, sources shared across kinds) the registry and every one- and two-lint view without certificate lints must agree with themselves (listing, per-kind sources, per-kind Names() sorted and duplicate-free, lookups); rapid near-miss / random names and sources looked up in the global and in generated filtered registries. "
                 "Non-trivial = one registered lint (census entry or metadata record) or a lookup that must miss; distinct by name.",
         "assumptions": ["lint registrations are syntactic lint.Register* calls with a literal Name (the census reports any that are not)",
                         "the harness test binary imports github.com/zmap/zlint/v3 exactly as a default build does"],
@@ -97,7 +97,7 @@ CHECKS = {
     "C07": {
         "legs": legs_simple("props", "^TestC07$", 14, 16),
         "rule": "enumerated: every lint alone (Filter IncludeNames=[l]) on K of its home objects (2 quick / all thorough); rapid: generated objects x generated valid FilterOptions "
-                "(singletons, subsets, sources, regexps, chains of two filters), on fresh parses and on one shared parsed object in both orders; inherited configurations (well- and ill-typed), and an earlier equal Filter whose result was reconfigured. Oracle: selected lints' status and "
+                "(singletons, subsets, sources, regexps, chains of two filters), on fresh parses and on one shared parsed object in both orders; inherited configurations (well- and ill-typed), and an earlier equal Filter whose result was reconfigured; lint-order oracle: corpus certificates, structured certificates and the home-sweep mutants (half of them in quick, all in thorough) are linted in the registry's order and in reverse order on fresh parses - every status must agree. Oracle: selected lints' status and "
                 "details equal the full run's, keys == selected lints of the kind, filtered flags imply full flags. Non-trivial = proper non-empty selection with >=1 finding among "
                 "the selected lints; distinct by hash(DER, filters).",
         "assumptions": COMMON_ASSUME,
@@ -105,7 +105,7 @@ CHECKS = {
     "C08": {
         "legs": legs_simple("props", "^TestC08$", 14, 16),
         "rule": "rapid FilterOptions over the real registry and over pre-filtered registries: name lists (nil / empty / known names with stray blanks, duplicates, all three kinds, "
-                "case-changed, truncated, empty, random), source lists (all constants, Unknown, arbitrary strings, sources without lints), regexps from a dictionary and a grammar over fragments of real names, all combinations; a non-empty filter result is a registry of its own (reconfiguring it leaves the source and later equal filters alone); lints of every kind registered one at a time at run time are filtered like any other. "
+                "case-changed, truncated, empty, random), source lists (all constants, Unknown, arbitrary strings, sources without lints), regexps from a dictionary and a grammar over fragments of real names, all combinations; a non-empty filter result is a registry of its own (reconfiguring it leaves the source and later equal filters alone); lints of every kind (nine, some without a source, names sorting before and after every built-in) registered one at a time at run time are filtered like any other; blanks around names and sources include the Unicode ones. "
                 "Oracle: set-algebra model of the statement (error cases, selection, kind, metadata, object identity, Sources(), sorted Names(), lookup consistency, source registry "
                 "unchanged, configuration inherited - probed behaviourally). Non-trivial = >=2 populated option fields and a result neither empty nor everything; distinct by options.",
         "assumptions": ["'known name' means known to the registry being filtered", "Filter with empty options returns the receiver (documented)"],
@@ -116,7 +116,7 @@ CHECKS = {
         "rule": "rapid TOML documents (empty, unrelated sections incl. other lint names / global sections / nested tables, well-typed options for the configurable lints discovered at "
                 "run time, ill-typed shapes: scalar / array / array-of-tables / wrong field type / table for a scalar) x home objects of those lints, built CRLs, other corpus objects; "
                 "rapid state machine over registries (SetConfiguration / Filter - empty options (alias), excluding one lint, and non-empty options that select everything (name pattern, all sources, all names) - / lint) against a model of which configuration each registry holds; "
-                "enumerated CLI matrix: every configurable lint x its configuration-sensitive objects x selection flags {none, the lint alone, all but another, its source, a name pattern, a foreign source excluded} x {alternative option, empty file, no -config}: the real binary's verdicts must equal the library's under that configuration; the loaders agree (string / reader / file, comment preambles of 0 B - 1 MiB); the calendar CRL enumeration against the option model; unrelated names bound to scalars / arrays / arrays of tables; the example "
+                "enumerated CLI matrix: every configurable lint x its configuration-sensitive objects x selection flags {none, the lint alone, all but another, its source, a name pattern, a foreign source excluded} x {alternative option, empty file, no -config}: the real binary's verdicts must equal the library's under that configuration; the loaders agree (string / reader / file, comment preambles of 0 B - 1 MiB; the file's path first held another document of the same length and modification time); mock leg: configurable mocks with higher scoped references by value and through pointers x five ill-typed shapes - exactly the lint named by a broken section reports fatal with a configuration error naming it, every other lint is what it is without it; the calendar CRL enumeration against the option model; unrelated names bound to scalars / arrays / arrays of tables; the example "
                 "configuration is parsed with go-toml. Non-trivial = document naming a configurable lint (distinct by DER+TOML) or a history with >=2 SetConfiguration.",
         "assumptions": COMMON_ASSUME + ["option semantics modelled for the four configurable lints present today; a new configurable lint is checked against the reference lifecycle only"],
     },
@@ -127,13 +127,13 @@ CHECKS = {
         "rule": "enumerated: every Names() element as sole include and sole exclude (padded), every Sources() element through LintSource.FromString, SourceList.FromString (alone, padded, "
                 "in lists), JSON round trip, Include/ExcludeSources and the real CLI (-includeSources/-excludeSources -list-lints-source; -includeNames/-excludeNames for every 9th name "
                 "in quick, all in thorough), every registered profile; rapid: unknown tokens (case-changed, truncated, suffixed, random) must be rejected by Filter, SourceList.FromString, "
-                "JSON decoding and the CLI; every known source (constants harvested from source.go) with stray blanks / separators around it, and generated padded tokens: whatever FromString / SourceList.FromString / JSON decoding accepts must be one of the known sources. After run-time registrations every listed name is accepted alone and in lists of 2-40 names; profiles registered at run time come back from GetProfile as registered, select exactly their lints, and are rejected when they name an unknown lint. Non-trivial = one listed name/source/profile case or one unknown token; distinct by (what, token, padding).",
+                "JSON decoding and the CLI; every known source (constants harvested from source.go) with stray blanks / separators around it, and generated padded tokens: whatever FromString / SourceList.FromString / JSON decoding accepts must be one of the known sources. After run-time registrations every listed name is accepted alone and in lists of 2-40 names, and every list accepted before an addition is submitted again after it together with the new names; CLI selector combinations (two bad values, bad + good, names glued without a separator); profiles registered at run time come back from GetProfile as registered, select exactly their lints, and are rejected when they name an unknown lint. Non-trivial = one listed name/source/profile case or one unknown token; distinct by (what, token, padding).",
         "assumptions": ["the CLI binary is built from the working tree by the driver", "no profile is registered today, so the profile leg is vacuous until one is"],
     },
     "C14": {
         "legs": legs_simple("props", "^TestC14$", 14, 16),
         "needs_cli": True,
-        "rule": "enumerated: status values -3..12, the eight labels, WriteJSON of the global registry; rapid: result sets from generated objects (biased to names with invalid UTF-8, "
+        "rule": "enumerated: status values -3..12, the eight labels (again after the library's own summary printer has run), WriteJSON of the global registry and of one holding harness lints with far-future / pre-1970 dates; rapid: result sets from generated objects (biased to names with invalid UTF-8, "
                 "quotes, <>&, NUL so details carry them), synthetic results with arbitrary details bytes x each status, arbitrary label strings, arbitrary JSON tokens in the place of a status (numbers, null, booleans, arrays, objects, escaped strings: decoding fails cleanly - never a panic - or yields a label's status), WriteJSON of generated filtered "
                 "registries; result sets whose details carry %, quotes, <>&, control or invalid bytes are also printed by the real CLI (default / -pretty) and decoded. Oracle: Unmarshal(Marshal(x)) reproduces keys, status, details (invalid bytes -> U+FFFD), flags, version, timestamp; labels distinct/stable; unknown labels "
                 "rejected; listing lines decode strictly to name/description/citation/known source. Non-trivial = result set with >=1 non-empty details (distinct by details content), "
@@ -143,7 +143,7 @@ CHECKS = {
     "C09": {
         "legs": legs_with_mock("^TestC09$", 14, 16),
         "rule": "rapid: generated certificates (corpus, 0-3 DER edits, openers) whose issuer differs from the subject x a replacement signature BIT STRING of the same length "
-                "(random, all-zero, all-one, one bit flipped, another corpus certificate's signature of equal length, a fresh well-formed ECDSA-Sig-Value, reversed, enumerated: every (inner, outer) pair of the corpus' AlgorithmIdentifier encodings x 3 signatures; mock leg: recovered panics and configuration errors must not depend on the signature bits either; a slice of the certificate's own tbsCertificate, one of its own extensions re-encoded (as is / explicit critical FALSE / TRUE / whole list), its own names, validity, serial or key). Oracle: "
+                "(random, all-zero, all-one, one bit flipped, another corpus certificate's signature of equal length, a fresh well-formed ECDSA-Sig-Value, reversed, BIT STRINGs with 1-7 unused bits / empty / odd length, enumerated: every (inner, outer) pair of the corpus' AlgorithmIdentifier encodings x 3 signatures; mock leg: recovered panics and configuration errors must not depend on the signature bits either; a slice of the certificate's own tbsCertificate, one of its own extensions re-encoded (as is / explicit critical FALSE / TRUE / whole list), its own names, validity, serial or key). Oracle: "
                 "identical status and details for every lint, SelfSigned false on both. Non-trivial = signature bits actually differ and >=1 lint body executed; distinct by (DER, DER').",
         "assumptions": COMMON_ASSUME + ["a variant the parser rejects is counted, not judged"],
     },
@@ -151,7 +151,7 @@ CHECKS = {
         "legs": legs_simple("props", "^TestC16$", 14, 16),
         "needs_cli": True,
         "rule": "enumerated: every divisor 2..769 times a 1031-bit prime, bit lengths {1,2,8,512,1023..1025,2040,2047..2049,2056,3071..3073,4096} x exponents {1,2,3,4,65535..65538,2^31-1,2^62+1} "
-                "(a quarter of the base/threshold/exponent grid per seed), genuinely self-signed roots built from 10 committed keys of 1023..4096 bits; rapid: moduli near thresholds, "
+                "(a quarter of the base/threshold/exponent grid per seed), genuinely self-signed roots built from 10 committed keys of 1023..4096 bits under the base's validity and eight periods on every side of the 2011 / 2014 dates; rapid: moduli near thresholds, "
                 "uniform 2..4200 bits, multiples of 8 +-1, even, primes around 752 x prime, products of two primes; exponents incl. 2^63-1; Fermat: products of primes whose distance is "
                 "aimed at 0..4000 rounds (also 1536- / 2048-bit primes: moduli above 2048 bits), moduli made of all-ones / near-all-ones / zero machine words, applicability independent of the key value, Rounds configured at need-1..need+2 - a budget of them also through the real CLI with -config and generated selection flags, plus the enumerated CLI -config matrix for the Fermat lint. Keys are written into the SPKI of home certificates of the 14 lints. Oracle: math/big predicates, applied "
                 "where the reference lifecycle says the lint executed. Non-trivial = (lint, bit length within 1 of a threshold) or (lint, key with the finding) or a Fermat (N, Rounds) case.",
@@ -159,7 +159,7 @@ CHECKS = {
     },
     "C17": {
         "legs": legs_simple("props", "^TestC17$", 14, 16),
-        "rule": "enumerated in both tiers: every unordered pair of a pool of ~150 GeneralNames of every arm (DNS names incl. letter-case variants, reverse-DNS names of both families, onion, IDN, wildcards; e-mail, URI, IP, other arms) as a two-entry SAN in both orders on the "
+        "rule": "enumerated in both tiers: every unordered pair of a pool of ~150 GeneralNames of every arm (DNS names incl. letter-case variants (also of A-labels whose decoding depends on case), non-NFC A-labels, reverse-DNS names of both families, onion, IDN, wildcards, 130-label names; e-mail, URI, IP, other arms) as a two-entry SAN in both orders on the "
                 "subscriber certificate that is home to most name lints - DNS pairs with the common name removed, equal to the first and equal to the second entry; every corpus certificate x 5 fixed permutations of its extension list. "
                 "rapid: certificates whose SAN is rebuilt from 2-8 GeneralNames of every arm (compliant, non-compliant, unparseable; dictionary + corpus donors) x a permutation "
                 "(adjacent transposition, reversal, rotation, Fisher-Yates) x common name (as is, removed, copy / upper-case / lower-case of an entry, unrelated); e-mail-like entries incl. malformed SmtpUTF8Mailbox otherNames x everything on an S/MIME certificate; extension crossover (every donor extension first vs last); generated certificates without duplicate extension OIDs x a permutation of the extension list. Self-signed "
@@ -170,7 +170,7 @@ CHECKS = {
         "legs": legs_simple("props", "^TestC18$", 8, 16),
         "rule": "the TLD table is read as data with go/parser; enumerated in both tiers: well-formedness of every entry, and HasValidTLD for every entry x {delegation, removal} x "
                 "{-1s,0,+1s} x 3 spellings x 3 zones; rapid: labels from table keys (any case), near misses, fixed internal names, random strings x domain shapes x instants (near a "
-                "boundary or uniform 1980-2040); certificates: home objects of e_dnsname_not_valid_tld with generated SAN/CN and notBefore, and (enumerated) 27 common names that are or only resemble IP literals (zones, brackets, ports, leading zeros, short forms); 16 extreme instants per table entry (year 1 ... 9999); the Unicode spellings of the table's xn-- keys (not in the table). Oracle: integer model of the statement "
+                "boundary or uniform 1980-2040); certificates: home objects of e_dnsname_not_valid_tld with generated SAN/CN and notBefore, and (enumerated) 27 common names that are or only resemble IP literals (zones, brackets, ports, leading zeros, short forms); 16 extreme instants per table entry (year 1 ... 9999); the Unicode spellings of the table's xn-- keys (not in the table); bit-5 look-alikes of table keys (@ [ \\ ] ^ _ ` for letters); CN = case variant of a SAN entry. Oracle: integer model of the statement "
                 "(ASCII case-insensitive). Non-trivial = (entry, boundary, side, spelling), a missing label, or a generated certificate.",
         "assumptions": ["labels containing a character that some case mapping relates to an ASCII character (KELVIN SIGN, LONG S, dotted capital I) are not judged; every other non-ASCII label is 'not in the table'",
                         "the table generator (cmd/zlint-gtld-update) is not exercised - it fetches its data over the network; the table it produced is checked entry by entry"],
@@ -178,7 +178,7 @@ CHECKS = {
     "C19": {
         "legs": legs_simple("props", "^TestC19$", 8, 16),
         "rule": "enumerated in both tiers: first/last/one-below/one-above address of each of 22 special-purpose blocks written from the RFCs, every prefix length 0..32/128 around the "
-                "first, middle and last address of every block in 4-byte and IPv4-mapped form (so every super-net and sub-net), 26 public anchors; rapid: addresses near blocks, "
+                "first, middle and last address of every block in 4-byte and IPv4-mapped form (so every super-net and sub-net), 26 public anchors; unmasked network bases (host bits set) against every block; rapid: addresses near blocks, "
                 "perturbed anchors, uniform v4/v6 x any prefix; certificates with generated iPAddress SANs, IP common names and permitted (and, next to them, excluded) IP name constraints on home objects. "
                 "Oracle: block member => reserved; anchor => public; forms agree; /32 or /128 network == address test; contains a reserved witness => intersects; super-net "
                 "monotonicity; lints == function results. Non-trivial = block edge address, super-net of a block, address inside a block, or a generated certificate.",
@@ -189,7 +189,7 @@ CHECKS = {
         "rule": "rapid content placed so both members of a pair see the same thing: DNS names (dictionary / random) with CN empty or equal to a SAN entry; identical GeneralNames of all "
                 "arms (incl. hostile bytes) in SAN and IAN; issuer DN = subject DN built from generated RDNs (blanks, multi-valued, every string type); AIA URLs (internal, reserved, odd "
                 "hosts) on certificates in both TLS and S/MIME scope; validity lengths around 397/398 days +-2 s; given name / surname of 1..33000 runes; plus generic generated "
-                "certificates; the URI grammar's cross product (4800 URIs) as the one entry of SAN and IAN; AIA hosts under TLDs that have left the root zone; pair sweep (enumerated): for every pair K corpus certificates on which both members run (1 quick / 5 thorough) x every (leaf x type-aware edit) mutant - alone, with the SAN value then copied into the IAN, "
+                "certificates; the URI grammar's cross product (4800 URIs) as the one entry of SAN and IAN; AIA hosts under TLDs that have left the root zone; names of 130 labels; blank-padded values at the length limits; pair sweep (enumerated): for every pair K corpus certificates on which both members run (1 quick / 5 thorough) x every (leaf x type-aware edit) mutant - alone, with the SAN value then copied into the IAN, "
                 "and with the subject then copied into the issuer - linted with all pair members. 23 pairs (20 twins, 3 companions). A pair is judged only when the reference lifecycle shows both bodies executed and the content predicate holds. "
                 "Non-trivial = judged pair with >=1 finding; distinct by (pair, DER).",
         "assumptions": COMMON_ASSUME + ["'same content' = CN empty/IP/in SAN; exactly one SAN and one IAN extension with identical values; RawSubject == RawIssuer"],
@@ -197,7 +197,7 @@ CHECKS = {
     "C05": {
         "legs": legs_simple("props", "^TestC05$", 14, 16),
         "tools": [{"pkg": "cmd/oneshot", "name": "oneshot", "env": "VERIF_ONESHOT", "cgo": False}],
-        "rule": "(0) one unit in twelve of the home sweep (all in thorough): three runs agree in status and details and the linted object equals an unlinted twin; fresh-process digests are also compared under four enumerated zones (UTC+14, UTC-12, +5:45, New York). (1) repetition: corpus (enumerated) and rapid-generated objects/registries linted R times (12 quick / 40 thorough) on fresh parses, plus directed shapes prone to "
+        "rule": "(0) every mutant of the home sweep: the linted object equals an unlinted twin (deep comparison of every exported field); one unit in twelve (all in thorough): three runs agree in status and details; EKU x KU combinations enumerated; a soak history (> 1500 distinct names, then an early object again gives its first verdict); fresh-process digests are also compared under four enumerated zones (UTC+14, UTC-12, +5:45, New York). (1) repetition: corpus (enumerated) and rapid-generated objects/registries linted R times (12 quick / 40 thorough) on fresh parses, plus directed shapes prone to "
                 "map-iteration order (several duplicated extensions, several EV .onion names); (2) rapid state machine: lint / filter / re-set configuration over 2-5 generated objects "
                 "and up to 4 registries, re-using parsed objects, against a memo of the first verdict; (3) read-only: reflect walk over every exported field of the linted object vs an "
                 "unlinted twin; (4) a bundle of corpus + generated objects linted in a fresh process (oneshot, CGO off) - digests must equal the in-process ones under rapid-generated "
@@ -210,10 +210,10 @@ CHECKS = {
     "C10": {
         "legs": lambda tier: [{"pkg": "racecheck", "run": "^TestC10$", "shards": 12 if tier == "quick" else 16, "race": True, "timeout": 900 if tier == "quick" else 7200}],
         "maxpar": 8,
-        "rule": "one program in four concentrates on revocation lists, one in eight on OCSP responses; workers also Filter themselves a registry of their own (options that select everything or not) and reconfigure it while others lint configuration-sensitive objects through the shared one. rapid programs: 2-16 goroutines x 5-40 operations from {Lint*Ex on an own fresh parse against a shared registry, Filter, Names, Sources, ByName/BySource/Lints per kind, "
+        "rule": "hammer phase after every program: 8 goroutines lint the program's focus objects (corpus certificates on which its four focus lints - walked round-robin over the registry - apply) and never-seen-before variants of them (fresh A-labels, ACE prefix in lower / upper / mixed case) 150 (quick) / 400 (thorough) times each through a registry holding only the focus lints; the sequential reference is computed afterwards; 120 s without finishing = deadlock. one program in four concentrates on revocation lists, one in eight on OCSP responses; workers also Filter themselves a registry of their own (options that select everything or not) and reconfigure it while others lint configuration-sensitive objects through the shared one. rapid programs: 2-16 goroutines x 5-40 operations from {Lint*Ex on an own fresh parse against a shared registry, Filter, Names, Sources, ByName/BySource/Lints per kind, "
                 "WriteJSON, GetConfiguration, DefaultConfiguration}; shared registries = global + 1-3 generated filtered ones; 6-24 objects per program (corpus walked round-robin so every "
                 "lint body the corpus reaches runs concurrently, generated certificates, CRLs, OCSP); start barrier, generated Gosched points; each program executed 3 times; shards run "
-                "under GOMAXPROCS 1/2/4/16. Monitors: Go race detector (any report), panics, 180 s deadlock watchdog; oracle: every concurrent lint digest equals the memoised "
+                "under GOMAXPROCS 1/2/4/16. Monitors: Go race detector (any report), panics, 180 s deadlock watchdog (120 s in the hammer); oracle: every concurrent lint digest equals the memoised "
                 "sequential digest. Non-trivial = program with >=2 mostly-linting goroutines and >=1 other goroutine; distinct by operation lists.",
         "assumptions": ["SetConfiguration / Register* concurrent with linting are outside the stated guarantee and not generated",
                         "schedules are sampled; the race detector reports an unsynchronised shared access whenever both accesses execute in one run"],
@@ -223,7 +223,7 @@ CHECKS = {
         "needs_cli": True,
         "rule": "rapid invocations of the real cmd/zlint binary built from the working tree: 1-4 inputs (generated certificates, corpus CRLs) x encoding (PEM plain / leading text / CRLF, DER, "
                 "base64 plain / wrapped / trailing newline) x delivery (neutral file + -format, .pem/.der suffix overriding, stdin, '-') x generated selection flags and config file x output "
-                "(default, -pretty, -summary, -longSummary); the enumerated CLI -config matrix of C11; bad cases: undecodable bytes, truncated DER, bad base64, wrong PEM type, mismatching suffix, unknown names/sources/regexp/profile/"
+                "(default, -pretty, -summary, -longSummary); the enumerated CLI -config matrix of C11; every corpus certificate x {PEM, DER, base64}; a 60 KiB certificate (2600 dNSNames) in every encoding through a file and stdin; 200 files in one invocation under `ulimit -n 48`; bad cases: undecodable bytes, truncated DER, bad base64, wrong PEM type, mismatching suffix, unknown names/sources/regexp/profile/"
                 "format/config path. Oracle: exit status, one result object (or table) per decodable leading input, equal to the in-process library result for the same selection; summary "
                 "counts equal result counts per level. Non-trivial = invocation with a selection flag or a non-PEM first input; distinct by whole invocation.",
         "assumptions": ["a .pem/.der suffix overrides -format; neutral files are named *.bin", "CRLs are only accepted in PEM armor"],
